@@ -901,6 +901,21 @@ func (g *pGen) build(depth, k int) *pProg {
 }
 
 // blank lines prepended afterwards: the same program text with k more lines
+func posFileStartProgs() []*pProg {
+	return []*pProg{
+		{Files: map[string]string{"(main)": "[1][import(\"ma\").k]\n", "ma": "return {k: 5}\n"},
+			Expected: []pEntry{{"(main)", 1}}, Shape: []string{"file-start"}},
+		{Files: map[string]string{"(main)": "x := import(\"mb\")\ny := import(\"ma\")\n", "ma": "[1][5]\nreturn 1\n", "mb": "return 2\n"},
+			Expected: []pEntry{{"(main)", 2}, {"ma", 1}}, Shape: []string{"file-start"}},
+		{Files: map[string]string{"(main)": "import(\"ma\").f(0)\n", "ma": "return {f: func(x) { return 1 / x }}\n"},
+			Expected: []pEntry{{"(main)", 1}, {"ma", 1}}, Shape: []string{"file-start"}},
+		{Files: map[string]string{"(main)": "a := import(\"mb\")\nb := import(\"ma\")\n", "mb": "[1][5]\nreturn 2\n", "ma": "return 1\n"},
+			Expected: []pEntry{{"(main)", 1}, {"mb", 1}}, Shape: []string{"file-start"}},
+		{Files: map[string]string{"(main)": "f := import(\"ma\")\nf(0)\n", "ma": "return func(x) {\n  return [x][1]\n}\n", "mz": "return 0\n"},
+			Expected: []pEntry{{"(main)", 2}, {"ma", 2}}, Shape: []string{"file-start"}},
+	}
+}
+
 func shiftProg(p *pProg, k int) *pProg {
 	q := &pProg{Files: map[string]string{}, Shape: p.Shape}
 	for n, t := range p.Files {
@@ -1199,6 +1214,12 @@ func init() {
 			maxDepth := 5
 			if c.Scale > 1 {
 				maxDepth = 8
+			}
+			// positions at the very first byte of a file that is not the last file of the set (the main
+			// script with source modules, an earlier module): the file lookup boundary
+			for _, p := range posFileStartProgs() {
+				posOracle(c, p)
+				c.Count("shape:file-start")
 			}
 			np := 1200 * c.Scale
 			shapes := map[string]bool{}
